@@ -122,7 +122,7 @@ def shard(mon, tier, rng, shard_no, nshards):
     for t in ("acute", "right", "obtuse"):
         if shard_no % 3 == ("acute", "right", "obtuse").index(t):
             check_cone(mon, f"cone3d-{t}", gen.make_order("cone3d", type=t), rng, "cone3d")
-    Ks = list(range(3, 25))
+    Ks = list(range(3, 25)) + [36, 48]
     for j in range(3 if tier == "quick" else 100):
         K = Ks[(shard_no * 3 + j) % len(Ks)]
         th = float(np.round(rng.uniform(5, 85), 2))
